@@ -8,6 +8,7 @@ use std::collections::VecDeque;
 thread_local! {
     static CLOCK: Cell<Option<u64>> = const { Cell::new(None) };
     static OPENS: RefCell<Option<VecDeque<Option<Vec<u8>>>>> = const { RefCell::new(None) };
+    static SHAKE: RefCell<Option<VecDeque<u16>>> = const { RefCell::new(None) };
 }
 
 /// Fix (or release, with `None`) the value returned by `aead_2022::now()` and `vmess::now()` on this thread.
@@ -28,4 +29,13 @@ pub fn script_opens(script: Option<Vec<Option<Vec<u8>>>>) {
 /// `None`: not scripted (use the real cipher); `Some(x)`: the scripted outcome (an exhausted script fails).
 pub(crate) fn next_open() -> Option<Option<Vec<u8>>> {
     OPENS.with(|o| o.borrow_mut().as_mut().map(|q| q.pop_front().flatten()))
+}
+
+/// Script the next values drawn from the VMess SHAKE128 size/padding stream on this thread (`None`: real stream).
+pub fn script_shake(script: Option<Vec<u16>>) {
+    SHAKE.with(|o| *o.borrow_mut() = script.map(VecDeque::from));
+}
+
+pub(crate) fn next_shake() -> Option<u16> {
+    SHAKE.with(|o| o.borrow_mut().as_mut().map(|q| q.pop_front().unwrap_or(0)))
 }
